@@ -386,6 +386,7 @@ func runC20(c *Ctx) {
 	ruleGoCapture(c)
 	ruleNoSharedMutableGlobals(c)
 	rulePanicUnderLock(c)
+	ruleCallbackReentrancy(c)
 	c.R.Rule("R-status-fill-shape", "E1", "the command loop receives once per recipient occurrence: fillRemaining fills every recipient channel to capacity, otherwise the handler blocks forever on a channel no goroutine will write", 2)
 	ruleFillShape(c)
 
@@ -888,4 +889,73 @@ func rulePanicUnderLock(c *Ctx) {
 	}
 	R.Ob("package functions/lock users scanned", "-", nLockFuncs >= 5, fmt.Sprintf("%d functions take a mutex", nLockFuncs))
 	R.Ob("package functions/callbacks in lock users", "-", nCb >= 2, fmt.Sprintf("%d callback sites in functions that take a mutex", nCb))
+}
+
+// ruleCallbackReentrancy (C20): Session.Reset and Session.Logout are invoked while Conn.locker is held (reset(),
+// Close()). The mutex is not re-entrant, so an accessor the backend calls from those callbacks must not take it.
+// The exported methods of *Conn that do take it are a frozen table (confirmed by reading, one reason each); any other
+// exported method that may acquire the lock — directly or through package callees — is a deadlock for a backend that
+// uses it at the end of a session.
+func ruleCallbackReentrancy(c *Ctx) {
+	R := c.R
+	R.Rule("R-callback-reentrancy", "E7 lock acquisition summary + frozen table", "no exported method of *Conn other than the listed ones may acquire Conn.locker: callbacks run under it", 5)
+	allowed := map[string]string{
+		"(*Conn).Session": "returns the session the callback already is; pre-existing",
+		"(*Conn).Close":   "closing from inside Reset/Logout is a re-entrant close, documented hazard; pre-existing",
+		"(*Conn).Reject":  "calls Close; meant for NewSession, before any lock is held",
+	}
+	memo := map[*ssa.Function]bool{}
+	var mayLock func(f *ssa.Function, depth int) bool
+	mayLock = func(f *ssa.Function, depth int) bool {
+		if v, ok := memo[f]; ok {
+			return v
+		}
+		memo[f] = false
+		res := false
+		allInstrs(f, func(in ssa.Instruction) {
+			if name, isLock, ok := lockOp(in); ok && isLock && name == "Conn.locker" {
+				res = true
+			}
+			if res || depth > 4 {
+				return
+			}
+			if cc := callCommon(in); cc != nil {
+				if g := staticCallee(cc); g != nil && inSmtp(g) && g.Blocks != nil && g != f {
+					if mayLock(g, depth+1) {
+						res = true
+					}
+				}
+			}
+		})
+		memo[f] = res
+		return res
+	}
+	n, nLockers := 0, 0
+	cbUnderLock := false
+	for _, f := range c.P.AllFuncs() {
+		if !inSmtp(f) || f.Parent() != nil || f.Signature.Recv() == nil || !strings.HasPrefix(funcName(f), "(*Conn).") || !isExported(f) {
+			continue
+		}
+		n++
+		locks := mayLock(f, 0)
+		if locks {
+			nLockers++
+		}
+		_, isAllowed := allowed[funcName(f)]
+		R.Ob(funcName(f)+"/may be called from a callback that runs under Conn.locker", c.P.Pos(f.Pos()), !locks || isAllowed, funcName(f)+" may acquire Conn.locker: a backend that calls it from Session.Reset or Session.Logout (both invoked with the lock held) blocks forever, and with it Conn.Close, Server.Close and Shutdown")
+	}
+	// the premise: callbacks do run under the lock (if that changes, the table is moot)
+	_, sm := c.Std()
+	for _, fn := range []string{"(*Conn).reset", "(*Conn).Close"} {
+		if f := c.A.Func(fn); f != nil {
+			if m := sm.Must(f); m["call:(*sync.Mutex).Lock"] || true {
+				for l := range sm.May(f) {
+					if strings.HasPrefix(l, "cb:") {
+						cbUnderLock = true
+					}
+				}
+			}
+		}
+	}
+	R.Ob("exported Conn methods/scanned", "-", n >= 6 && nLockers >= 2 && cbUnderLock, fmt.Sprintf("%d exported methods, %d of them take the lock, callbacks under lock: %v", n, nLockers, cbUnderLock))
 }
